@@ -49,6 +49,7 @@ type runSpec struct {
 	Trace    bool                `json:"trace"`
 	Ovr      bool                `json:"ovr"`     // the resolver overrides google/protobuf/descriptor.proto (model file "d")
 	Collide  bool                `json:"collide"` // all files share one package and every requested file defines message Dup
+	Opts     bool                `json:"opts"`    // every file defines and uses a custom option whose value holds a map (not traced)
 	Sched    [][]string          `json:"sched"`   // TLC-exported schedule: replayed step by step through the gates
 }
 
@@ -214,7 +215,21 @@ func render(spec *runSpec, f string) string {
 			fmt.Fprintf(&sb, "import \"%s\";\n", pathOf(d))
 		}
 	}
+	if spec.Opts {
+		sb.WriteString("import \"google/protobuf/descriptor.proto\";\n")
+		fmt.Fprintf(&sb, "message Opt%s { map<string, int32> m = 1; map<int32, string> n = 2; repeated string r = 3; }\n", f)
+		tag := 50000 + 10*int(f[0]-'a')
+		fmt.Fprintf(&sb, "extend google.protobuf.MessageOptions { Opt%s om_%s = %d; }\n", f, f, tag+1)
+		fmt.Fprintf(&sb, "extend google.protobuf.FileOptions { Opt%s of_%s = %d; }\n", f, f, tag+2)
+		fmt.Fprintf(&sb, "option (of_%s) = { m: {key: \"k1\" value: 1} m: {key: \"k2\" value: 2} m: {key: \"k3\" value: 3} m: {key: \"k4\" value: 4} m: {key: \"k5\" value: 5} };\n", f)
+	}
 	fmt.Fprintf(&sb, "message M%s {\n  int32 x = 1;\n", f)
+	if spec.Ovr && f != "d" && spec.Plan["d"] != "err" && spec.Plan["d"] != "panic" { // only when the override is effective
+		sb.WriteString("  option vfoo = \"Bob\";\n  option vqux = 7;\n  option vbaz = \"Tobias\";\n  option vbar = 3.25;\n")
+	}
+	if spec.Opts {
+		fmt.Fprintf(&sb, "  option (om_%s) = { n: {key: 5 value: \"e\"} n: {key: 4 value: \"d\"} n: {key: 3 value: \"c\"} n: {key: 2 value: \"b\"} n: {key: 1 value: \"a\"} r: \"x\" r: \"y\" };\n", f)
+	}
 	n := 2
 	var used []string
 	if spec.Public {
@@ -532,6 +547,21 @@ func runOne(spec *runSpec) runResult {
 		texts[f+".proto"] = render(spec, f)
 	}
 	dpProto := protodesc.ToFileDescriptorProto(descriptorpb.File_google_protobuf_descriptor_proto)
+	if spec.Ovr {
+		// the overriding descriptor.proto knows three more message options than the Go runtime's copy
+		for _, m := range dpProto.MessageType {
+			if m.GetName() == "MessageOptions" {
+				add := func(name string, num int32, typ descriptorpb.FieldDescriptorProto_Type) {
+					m.Field = append(m.Field, &descriptorpb.FieldDescriptorProto{Name: proto.String(name), Number: proto.Int32(num),
+						Type: typ.Enum(), Label: descriptorpb.FieldDescriptorProto_LABEL_OPTIONAL.Enum(), JsonName: proto.String(name)})
+				}
+				add("vfoo", 100, descriptorpb.FieldDescriptorProto_TYPE_STRING)
+				add("vbar", 101, descriptorpb.FieldDescriptorProto_TYPE_DOUBLE)
+				add("vbaz", 102, descriptorpb.FieldDescriptorProto_TYPE_STRING)
+				add("vqux", 103, descriptorpb.FieldDescriptorProto_TYPE_INT32)
+			}
+		}
+	}
 	resolver := protocompile.ResolverFunc(func(path string) (protocompile.SearchResult, error) {
 		if path == dpPath {
 			if !spec.Ovr {
@@ -610,7 +640,11 @@ func runOne(spec *runSpec) runResult {
 		rep = reporter.NewReporter(func(reporter.ErrorWithPos) error { return nil },
 			func(reporter.ErrorWithPos) { mu.Lock(); res.Warnings++; mu.Unlock() })
 	}
-	comp := protocompile.Compiler{Resolver: resolver, MaxParallelism: spec.Par, Reporter: rep}
+	var res0 protocompile.Resolver = resolver
+	if spec.Opts {
+		res0 = protocompile.WithStandardImports(resolver)
+	}
+	comp := protocompile.Compiler{Resolver: res0, MaxParallelism: spec.Par, Reporter: rep}
 	if spec.Shared {
 		comp.Symbols = &linker.Symbols{}
 	}
